@@ -25,12 +25,13 @@ THEOREMS = ["Ymq.C09.reduce64_inv", "Ymq.C09.step_gcd", "Ymq.C09.gcd_internal_sp
             "Ymq.C09.big_gcd_spec", "Ymq.C09.inv_mod_spec", "Ymq.C09.mulword_no_panic", "Ymq.C09.no_panic",
             "Ymq.C09.no_panic_ext", "Ymq.C09.no_panic_ext_any_width", "Ymq.C09.no_panic_ext_domain_sharp",
             "Ymq.C09.inv_mod_no_panic", "Ymq.C09.zmodn_inv_spec", "Ymq.C09.zmodn_gcd_spec",
-            "Ymq.C09.reduce64_first_row", "Ymq.C09.no_panic_ext_wide", "Ymq.C09.inv_mod_total"]
+            "Ymq.C09.reduce64_first_row", "Ymq.C09.reduce64_row_product", "Ymq.C09.no_panic_ext_wide",
+            "Ymq.C09.no_panic_ext_threshold", "Ymq.C09.inv_mod_total"]
 PROFILES = ["release", "chk"]
 TIMEOUT = 20.0
 W = 1 << 64
 
-RULE = ("(added) band 64N-11..64N-8 bits, newly inside the proved domain: shapes random / continuant / huge quotient / common factor / "
+RULE = ("(added) band 64N-10..64N-7 bits, newly inside the proved domain: shapes random / continuant / huge quotient / common factor / "
         "adversarial (one quotient step onto a 90-bit pair whose top words give the largest known reduce64 row product, one "
         "Lehmer step, then the <64-bit exit: cofactor products of 40..57 max(n,p)), oracle-judged in both profiles; "
         "first, in both tiers, a deterministic boundary family: every operand width 64k-1, 64k, 64k+1 up to 1012 / 500 / 244 bits (N = 16 / 8 / 4) "
@@ -64,9 +65,8 @@ CLAIM = ("Lean theorems for all inputs about a word-exact model of arith_gcd.rs:
          "implementation answer is judged by a Python big-integer oracle (math.gcd, Bezout identity, range of the inverse).")
 LEVEL_NOTE = ("Trusted: Lean kernel (+propext, Classical.choice, Quot.sound); correspondence of the hand-written model to "
               "the Rust code is sampled by the differential harness, not proved; bnum operators and num_integer::gcd are "
-              "modelled as mathematical functions; Python integers in the oracle. No theorem is partial; for operands of "
-              "exactly 64N-7 bits the absence of cofactor overflow is neither proved nor refuted (no panic found by a "
-              "directed search; largest cofactor product seen: 57 max(n,p), overflow needs 64).")
+              "modelled as mathematical functions; Python integers in the oracle. No theorem is partial; the cofactor-width domain "
+              "is sharp in bits (proved below 2^(64N-7), a witness of 64N-6 bits overflows).")
 TECHNIQUE = "Lean 4 proof about a hand model + differential correspondence check + spec oracle"
 
 WIDTHS16 = [0, 1, 2, 31, 32, 33, 63, 64, 65, 100, 127, 128, 129, 192, 256, 300, 448, 500, 512, 576, 640, 704, 768,
@@ -359,7 +359,7 @@ ADV_TOPS = [(9252754402567472798, 744673999053474881), (9273912679608153931, 363
             (9297038535131977817, 679360628938901656), (9286949640781810774, 1662010808351620318),
             (9228938283933250428, 1428778142749257600), (9278449843213156201, 694746088240793395),
             (9232921585157550786, 1254578532238157593), (9242132715442936519, 1202055992802453339)]
-WIDEBITS = {16: 1016, 8: 504, 4: 248}      # proved domain of no_panic_ext_wide / inv_mod_total: 64N - 8 bits
+WIDEBITS = {16: 1017, 8: 505, 4: 249}      # proved domain of no_panic_ext_wide / inv_mod_total: 64N - 7 bits (sharp)
 
 
 def adversarial_pair(rng, tw):
@@ -377,7 +377,7 @@ def adversarial_pair(rng, tw):
 
 
 def wide_cases(rng, tier):
-    """the band 64N-11 .. 64N-8 bits, added to the proved domain by no_panic_ext_wide: judged by the oracle in BOTH
+    """the band 64N-10 .. 64N-7 bits, added to the proved domain by no_panic_ext_wide: judged by the oracle in BOTH
     profiles (a panic of the checked profile is a violation); shapes random / continuant / huge quotient / common
     factor / adversarial (largest known cofactor products)"""
     reps = 10 if tier == "quick" else 60
@@ -449,7 +449,7 @@ def cases(tier, rng, extended=False):
         if sh != "hugeq":
             b |= 1 << (W0 - 1)
         out.extend(pair_cases(N, a, b, "boundary", full=False))
-        w1 = W0 + rng.randrange(5, 7)       # 64N-7, 64N-6 bits: above the proved domain (64N-8)
+        w1 = W0 + rng.randrange(6, 10)      # 64N-6 .. 64N-3 bits: above the proved (and sharp) domain 64N-7
         a, b = rbits(rng, w1), rbits(rng, rng.choice([w1, w1, rng.randrange(w1 - 40, w1 + 1)]))
         if i % 2:
             a, b = b, a
